@@ -32,22 +32,22 @@ EXPLANATION = (
 
 def run(ctx: Ctx):
     roles = SatRoles(ctx)
-    check_stutter(ctx)
-    check_budgets(ctx, roles)
-    check_verdicts(ctx, roles)
-    check_pure_vs_assumptions(ctx, roles)
-    check_add_sites(ctx, roles, "C02-O5")
-    check_backtrack(ctx, roles, "C02-O6")
-    check_analyze_guard(ctx, roles)
-    check_assumption_assertion(ctx, roles, "C02-O7")
+    ctx.step(check_stutter)
+    ctx.step(check_budgets, roles)
+    ctx.step(check_verdicts, roles)
+    ctx.step(check_pure_vs_assumptions, roles)
+    ctx.step(check_add_sites, roles, "C02-O5")
+    ctx.step(check_backtrack, roles, "C02-O6")
+    ctx.step(check_analyze_guard, roles)
+    ctx.step(check_assumption_assertion, roles, "C02-O7")
     ctx.assume("conflict-only cycles terminate because consecutive conflicts strictly lower the decision level (not verified)")
-    check_heap_flags(ctx, "C02-O8")
-    check_variable_universe(ctx, "C02-O10")
-    check_assign(ctx, "C02-O11")
-    check_bcp(ctx, "C02-O12")
-    check_analysis(ctx, "C02-O13")
-    check_main_loop(ctx, "C02-O14")
-    check_input_copy(ctx, "C02-O9")
+    ctx.step(check_heap_flags, "C02-O8")
+    ctx.step(check_variable_universe, "C02-O10")
+    ctx.step(check_assign, "C02-O11")
+    ctx.step(check_bcp, "C02-O12")
+    ctx.step(check_analysis, "C02-O13")
+    ctx.step(check_main_loop, "C02-O14")
+    ctx.step(check_input_copy, "C02-O9")
     generic_sweeps(ctx, skip_stutter_modules=("solvor/sat.py",))
 
 
